@@ -71,7 +71,7 @@ def generate(streams, tier):
               "perturb": [rw.randrange(2**31) for _ in range(2)]}
         if k in ("rejection", "lw", "law_rejection", "simulate"):
             ev = {}
-            for v in shuffled(rw, range(n))[: rw.choice([1, 1, 2])]:
+            for v in shuffled(rw, range(n))[: rw.choice([1, 1, 2, 0] if k == "rejection" else [1, 1, 2])]:
                 for s in shuffled(rw, range(world["card"][v])):
                     t = dict(ev)
                     t[v] = s
@@ -346,6 +346,13 @@ def execute(case, ctx):
                     _law(ctx, world, rows, None, "forward")
             elif k in ("rejection", "law_rejection"):
                 if not ev:
+                    # no evidence: the sampler takes a shortcut to forward sampling; seed and repeatability must survive it
+                    a, b = twice(lambda: sampler().rejection_sample(evidence=[], size=min(size, 400), include_latents=inc, seed=seed, show_progress=False))
+                    ctx.checked += 1
+                    ctx.probe("rejection_without_evidence")
+                    if not a.equals(b):
+                        ctx.fail("reproducible", f"{PROP}:not_reproducible:rejection_without_evidence", {"size": min(size, 400), "seed": seed})
+                    check_frame(a, expect_cols(inc), min(size, 400), "rejection_noev")
                     continue
                 if k == "law_rejection":
                     inc = True
